@@ -121,11 +121,22 @@ def mutants(src, lo, hi):
 def run_checks(root, checks, jobs, timeout):
     env = dict(os.environ, VERIF_REPO=str(root), VERIF_OUT=str(root / "_out"), PYTHONHASHSEED="0")
     for cid in checks:
+        # own session: on a timeout the whole process group (pool workers stuck in a mutant's endless loop) is killed
+        proc = subprocess.Popen([str(VERIF / "check"), cid, "--tier", "quick", "--jobs", str(jobs)], env=env, stdout=subprocess.PIPE, stderr=subprocess.PIPE,
+                                text=True, start_new_session=True)
         try:
-            p = subprocess.run([str(VERIF / "check"), cid, "--tier", "quick", "--jobs", str(jobs)], env=env, capture_output=True, text=True, timeout=timeout)
+            so, se = proc.communicate(timeout=timeout)
         except subprocess.TimeoutExpired:
+            import signal
+
+            try:
+                os.killpg(proc.pid, signal.SIGKILL)
+            except ProcessLookupError:
+                pass
+            proc.communicate()
             return cid, "timeout", ""
-        out = p.stdout + p.stderr
+        p = proc
+        out = so + se
         nv = len(re.findall(r"^VIOLATION", out, re.M))
         if nv:
             sig = re.findall(r"^  signature: (.*)$", out, re.M)
